@@ -25,7 +25,7 @@ LOCALS = [b"bob", b"b.o", b"ab", b"a%b+c", b"x_y", b"B-0"]
 MAIL_DOMS = [b".com", b"..org", b"example.org", b"a.co", b"x.y.international", b"a-b.xn--p1ai", b"a.notatld", b"1.2.3.4", b"a.com0"]
 
 
-EXTRA_HOSTS = [b"", b"a", b"%zz.com", b".com", b"%2Einfo", b"..com", b".a.com", b"a..com", b"-.org", b"....", b"com.", b"[::1%47]", b"[fe80::1%25eth0]", b"[::1%2541]"]
+EXTRA_HOSTS = [b"", b"a", b"%zz.com", b".com", b"%2Einfo", b"..com", b".a.com", b"a..com", b"-.org", b"....", b"com.", b"[::1%47]", b"[fe80::1%25eth0]", b"[::1%2541]", b"paypal.%EF%AC%81", b"a.%EF%BC%A3%EF%BC%AF%EF%BC%AD", b"a.n%C2%ADet", b"a.%C5%BFe", b"example.%D1%80%D1%84", b"a.%EF%BB%BFcom", b"%C3%A9.com", b"a.co%CC%81m"]
 URL_PATHS = (b"", b"/", b"/%41/%2f/..%zz", b"/%4%41", b"/%%37E/x", b"/%%34%31")
 
 
